@@ -276,8 +276,13 @@ Bind(p, cur, vis) ==
             IF IsErr(NewScope(p.a, vis)) \/ IsErr(NewScope(p.b, vis)) THEN BERR ELSE same
       [] p.k = "infix" ->
             IF IsErr(NewScope(p.a, vis)) \/ IsErr(NewScope(p.b, vis)) THEN BERR ELSE same
-      [] p.k \in {"cap", "sub", "scope", "block"} ->
+      [] p.k = "scope" /\ Len(p.ids) = 0 -> Bind(p.a, cur, vis)   \* plain parentheses
+      [] p.k \in {"sub", "scope", "block"} ->
             IF IsErr(ScopeWith(p.ids, p.a, vis)) THEN BERR ELSE same
+      [] p.k = "cap" ->
+            \* the id block of a capture lives in a scope of its own around the body's scope
+            IF ~Distinct(p.ids) THEN BERR
+            ELSE IF IsErr(NewScope(p.a, vis \cup Range(p.ids))) THEN BERR ELSE same
       [] p.k = "let" ->
             IF IsErr(NewScope(p.a, vis)) THEN BERR
             ELSE IF ~Distinct(p.ids) \/ Range(p.ids) \cap cur # {} THEN BERR
@@ -472,6 +477,7 @@ Den(p, env, stk) ==
                  [y EXCEPT !.lo = x.lo + y.lo, !.hi = x.hi + y.hi, !.hard = x.hard \/ y.hard]
       [] p.k = "scope" ->
             IF Depth(stk) < Len(p.ids) THEN [ResOf(<<>>) EXCEPT !.hard = TRUE]
+            ELSE IF Len(p.ids) = 0 THEN Den(p.a, env, stk)         \* plain parentheses
             ELSE LET b == BindIds(p.ids, stk, env) IN SetEnv(Den(p.a, b.e, b.s), env)
       [] p.k = "cap" ->
             IF Depth(stk) < Len(p.ids) THEN [ResOf(<<>>) EXCEPT !.hard = TRUE]
